@@ -660,6 +660,15 @@ func runClass(v *variant, prop string, cls sim.Class, tier string, seed, n uint6
 							stopOnce.Do(func() { close(stop) })
 							return
 						}
+						if oc.died && strings.Contains(oc.stderr, "[worker exit status: signal: killed]") && !crashOutput.MatchString(oc.stderr) {
+							// SIGKILL without any crash output of the Go runtime: the process did not die of
+							// its own doing (kernel OOM killer, an operator); not evidence about the property
+							mu.Lock()
+							harnessErr = fmt.Sprintf("worker in class %s engine %s seed %d run %d was killed from outside (SIGKILL, no crash output)\n%s", cls.Name, cls.Engine, seed, oc.lastRun, tail(oc.stderr, 3000))
+							mu.Unlock()
+							stopOnce.Do(func() { close(stop) })
+							return
+						}
 						vc := sim.DeathClass
 						if oc.hung {
 							vc = sim.HangClass
@@ -687,6 +696,8 @@ func runClass(v *variant, prop string, cls sim.Class, tier string, seed, n uint6
 	}
 	return first
 }
+
+var crashOutput = regexp.MustCompile(`panic:|fatal error:|SIG[A-Z]+:|unexpected signal|goroutine \d+ \[|runtime\.`)
 
 func tail(s string, n int) string {
 	if len(s) > n {
